@@ -477,8 +477,26 @@ def check(ck):
     # the retirement return is guarded by threads > min
     rets = [n for n in g.live_nodes() if n.kind == "return" and any(g.nodes[i].kind == "branch" and "_min_threads" in dump(g.nodes[i].test) for i in d[n.id])]
     ck.require(len(rets) == 1, "C10.7", "%s: one idle retirement" % q.fn(frun), "single guarded return", "found %d idle-retirement returns" % len(rets), q.loc(frun, frun.node))
+    def resolved(b):
+        """norm_cmp of a branch with operands that are locals holding a field of self read in the same critical section replaced
+        by that field (`n = self.__nb_threads` ... `n > self._min_threads`)"""
+        nc = norm_cmp(b.test, b.polarity)
+        if nc is None or not isinstance(b.test, ast.Compare):
+            return nc
+        sides = {dump(b.test.left): b.test.left, dump(b.test.comparators[0]): b.test.comparators[0]}
+        out = []
+        for txt in (nc[0], nc[2]):
+            e_ = sides.get(txt)
+            if isinstance(e_, ast.Name):
+                t_ = prov.origin(g, b, e_)
+                if t_[0] == "attr" and t_[1] == ("param", "self"):
+                    rdefs = prov.rd_of(g).get(b.id, {}).get(e_.id, frozenset())
+                    if len(rdefs) == 1 and g.nodes[list(rdefs)[0]].withs == b.withs and b.withs:
+                        txt = "self." + t_[2]
+            out.append(txt)
+        return (out[0], nc[1], out[1])
     for rn in rets:
-        gs = [norm_cmp(g.nodes[i].test, g.nodes[i].polarity) for i in d[rn.id] if g.nodes[i].kind == "branch"]
+        gs = [resolved(g.nodes[i]) for i in d[rn.id] if g.nodes[i].kind == "branch"]
         idle_ok = False
         for i in d[rn.id]:
             b = g.nodes[i]
